@@ -12,7 +12,7 @@ const MaxSafe = int64(1)<<53 - 1
 
 var keyAlphabet = []string{"a", "b", "c", "d", "x", "y", "foo", "bar", "baz", "qux", "k0", "k1", "k2", "name", "tags", "from", "to", "n", "é", "键"}
 
-var strPool = []string{"", "a", "b", "ab", "abc", "hello", "hello world", "*", "\\", "a*b", "x\\y", "é", "héllo", "日本語", "alice@example.com", "bob@example.com", "/a/b", "0", "true", "null"}
+var strPool = []string{"", "a", "b", "ab", "abc", "aaab", "aab", "abab", "ababac", "aaa", "x------END", "https:///host/path", "hello", "hello world", "*", "\\", "a*b", "x\\y", "é", "héllo", "日本語", "alice@example.com", "bob@example.com", "/a/b", "0", "true", "null"}
 
 var intPool = []int64{0, 1, -1, 2, 3, 5, 7, 10, 42, 100, 255, 256, -100, 1000, 65535, 1 << 31, -(1 << 31), 1<<32 + 1, MaxSafe, -MaxSafe, MaxSafe - 1, -MaxSafe + 1}
 
